@@ -141,7 +141,7 @@ def sweep_case(ctx, case, hexe, dexe, bb, work, ci, quick):
             found = True
 
     # ---- 1. pairwise across the six classes
-    pairs = [("P", "R", True), ("T", "A", True), ("T", "Q", True), ("A", "B", True), ("P", "T", closed), ("R", "A", closed)]
+    pairs = [("P", "R", True), ("T", "A", True), ("T", "Q", True), ("A", "B", True), ("P", "T", True), ("R", "A", True)]
     for x, y, structural in pairs:
         if x not in base or y not in base:
             continue
@@ -362,7 +362,8 @@ def run(ctx):
     found = equalmult_stream(ctx, hexe, work, quick) or found
     n = 25 if quick else 500
     forces = [{"kind": "fanout"}, {"kind": "fanout"}, {"kind": "pruned", "chains": True, "order": 6},
-              {"kind": "corpus", "chains": True, "order": 5}] + ([] if quick else [{"kind": "fanout"}] * 8)
+              {"kind": "corpus", "chains": True, "order": 5}, {"kind": "corpus", "shared": True, "order": 4},
+              {"kind": "pruned", "shared": True, "order": 5}] + ([] if quick else [{"kind": "fanout"}] * 8)
     for ci in range(n):
         size = "small" if quick or ctx.rng.random() < 0.8 else "medium"
         force = forces[ci] if ci < len(forces) else ({"kind": "fanout"} if ctx.rng.random() < 0.03 else None)
@@ -372,6 +373,8 @@ def run(ctx):
             ctx.cov["fanout_max_buckets_spanned"] = max(ctx.cov.get("fanout_max_buckets_spanned", 0), case.meta["buckets_spanned_min"])
         for (b, L) in getattr(case, "chains", []):
             ctx.hist("c03.blankchain", "basis=%d,len=%d" % (b, L))
+        for (sl, lv, nh) in getattr(case, "shared", []):
+            ctx.hist("c03.sharedblanks", "suffix=%d,levels=%d,heads=%d" % (sl, lv, nh))
         ctx.hist("lm.order", case.meta["order"])
         ctx.hist("lm.kind", case.meta["kind"])
         try:
